@@ -11,7 +11,7 @@ from concurrent.futures import ThreadPoolExecutor
 from . import common as C, repo as R, repocheck as K, repoext as X
 from .xvc import XvcRepo
 
-PATHS = ["a.txt", "d/b.txt", "d/e/c.dat", "n"]
+PATHS = ["a.txt", "d/b.txt", "d/e/c.dat", "n", "w.json", "d/v.tar.gz"]
 DESTS = {"a.txt": ["a2.txt", "d/a3.txt", "o/"], "d/b.txt": ["b2.txt", "o/"], "d/e/c.dat": ["c2.dat", "d/c3.dat"], "n": ["n2", "d/n3"]}
 CROSS = {"a.txt": "a.bin", "d/e/c.dat": "c.txt"}      # destination with another extension: class cross-ext (P3)
 # the model switch fixed_P3 (Repo/Ext.v), read from the source of the working tree on every run: with the repair the
